@@ -1,4 +1,4 @@
-import SamVerif.Lemmas.Lexer
+import SamVerif.Lemmas.LexerPos
 /-!
 # C14 — Source positions attached to syntax are faithful to the text
 
@@ -13,11 +13,8 @@ namespace SamVerif.Lexer
 
 /-! ## ground truth -/
 
-/-- position after reading `bs` starting at `p` -/
-def advanceAll (p : Pos) (bs : Bytes) : Pos := bs.foldl advance p
-
-/-- position of byte offset `pre.length` in a document that starts with `pre` -/
-def posOf (pre : Bytes) : Pos := advanceAll ⟨0, 0⟩ pre
+-- `advanceAll p bs` (position after reading `bs` from `p`) and `posOf pre` (= `advanceAll ⟨0,0⟩ pre`)
+-- are defined in `Model/Lexer.lean` (ground-truth section).
 
 /-- `Location` (module reference dropped: `union` asserts both sides agree on it) -/
 structure Loc where
@@ -32,6 +29,9 @@ def Loc.containsPos (a : Loc) (p : Pos) : Prop := a.start ≤ p ∧ p ≤ a.stop
 /-- `Location::contains` -/
 def Loc.contains (a b : Loc) : Prop := a.containsPos b.start ∧ a.containsPos b.stop
 def Loc.wf (a : Loc) : Prop := a.start ≤ a.stop
+instance (a : Loc) (p : Pos) : Decidable (a.containsPos p) := by unfold Loc.containsPos; exact inferInstance
+instance (a b : Loc) : Decidable (a.contains b) := by unfold Loc.contains; exact inferInstance
+instance (a : Loc) : Decidable a.wf := by unfold Loc.wf; exact inferInstance
 
 theorem pos_le_iff (a b : Pos) : a ≤ b ↔ (a.line < b.line ∨ (a.line = b.line ∧ a.col ≤ b.col)) := Iff.rfl
 theorem pos_lt_iff (a b : Pos) : a < b ↔ (a.line < b.line ∨ (a.line = b.line ∧ a.col < b.col)) := Iff.rfl
@@ -102,79 +102,180 @@ theorem contains_antisymm {a b : Loc} (h1 : a.contains b) (h2 : b.contains a) : 
   simp only [Loc.mk.injEq]
   exact ⟨Pos.le_antisymm h1.1.1 h2.1.1, Pos.le_antisymm h2.2.2 h1.2.2⟩
 
+/-! ## productions: `loc` of a node = union of its first and last item
+
+Every parser production builds the location of its node as
+`first_item.loc.union(&last_item.loc)` where the items are, in source order, the node's own
+delimiter tokens (`(`, `{`, `if`, `match`, `let`, `;` …) and its children (e.g.
+`peeked_loc.union(&body.loc())` for a lambda, `e1.loc().union(&e2.loc())` for a binary expression;
+source_parser.rs `expression_parser`, `pattern_parser`, `type_parser`).  `Production` states that
+shape once for all ~60 productions; the implementation-side walk (`vlib/c14.py: PRODUCTIONS`)
+compares, for every parsed node, its location with its first/last child (exact equality where the
+edge is a child) or its delimiter token (where the edge is a delimiter). -/
+
+/-- the items of a production in source order: each well-formed, none starts before its predecessor ends -/
+def Ordered : List Loc → Prop
+  | [] => True
+  | [a] => a.wf
+  | a :: b :: rest => a.wf ∧ a.stop ≤ b.start ∧ Ordered (b :: rest)
+
+/-- `first.union(&last)` over the item list `first :: rest` -/
+def prodLoc (first : Loc) (rest : List Loc) : Loc := first.union ((first :: rest).getLast (by simp))
+
+theorem Ordered.tail {a : Loc} {l : List Loc} (h : Ordered (a :: l)) : Ordered l := by
+  cases l with
+  | nil => trivial
+  | cons b r => exact h.2.2
+
+theorem Ordered.head_wf {a : Loc} {l : List Loc} (h : Ordered (a :: l)) : a.wf := by
+  cases l with
+  | nil => exact h
+  | cons b r => exact h.1
+
+/-- in an ordered item list every item starts at or after the first item's start and ends at or
+before the last item's end -/
+theorem Ordered.bounds {a : Loc} {l : List Loc} (h : Ordered (a :: l)) :
+    ∀ x ∈ a :: l, x.wf ∧ a.start ≤ x.start ∧ x.stop ≤ ((a :: l).getLast (by simp)).stop := by
+  induction l generalizing a with
+  | nil =>
+    intro x hx
+    simp only [List.mem_singleton] at hx
+    subst hx
+    exact ⟨h, Pos.le_refl _, Pos.le_refl _⟩
+  | cons b r ih =>
+    intro x hx
+    have hb := ih h.2.2
+    have hlast : (a :: b :: r).getLast (by simp) = (b :: r).getLast (by simp) := by
+      simp [List.getLast_cons]
+    rw [hlast]
+    rcases List.mem_cons.mp hx with rfl | hx'
+    · have hbb := hb b (List.mem_cons_self ..)
+      refine ⟨h.1, Pos.le_refl _, ?_⟩
+      exact Pos.le_trans h.2.1 (Pos.le_trans hbb.1 hbb.2.2)
+    · have hxx := hb x hx'
+      exact ⟨hxx.1, Pos.le_trans (Pos.le_trans h.1 h.2.1) hxx.2.1, hxx.2.2⟩
+
+/-- **encloses_children** (full strength, every production): a node whose location is built as the
+union of its first and last item encloses every one of its items (children and delimiters alike),
+and is itself well-formed — provided only that the items are in source order.  A production that
+unions with the wrong item (e.g. the parameter list instead of the body) violates the conclusion,
+so the walk's per-node comparison is a proof obligation, not a heuristic. -/
+theorem encloses_children (first : Loc) (rest : List Loc) (h : Ordered (first :: rest)) :
+    (prodLoc first rest).wf ∧ ∀ x ∈ first :: rest, (prodLoc first rest).contains x := by
+  have hb := h.bounds
+  have hfirst := hb first (List.mem_cons_self ..)
+  have hlastmem : (first :: rest).getLast (by simp) ∈ first :: rest := List.getLast_mem _
+  have hlast := hb _ hlastmem
+  have hu := union_lub first ((first :: rest).getLast (by simp)) hfirst.1 hlast.1
+  refine ⟨hu.1, ?_⟩
+  intro x hx
+  have hxx := hb x hx
+  have h1 : (prodLoc first rest).start ≤ x.start :=
+    Pos.le_trans (posMin_le_left _ _) hxx.2.1
+  have h2 : x.stop ≤ (prodLoc first rest).stop :=
+    Pos.le_trans hxx.2.2 (le_posMax_right _ _)
+  exact ⟨⟨h1, Pos.le_trans hxx.1 h2⟩, ⟨Pos.le_trans h1 hxx.1, h2⟩⟩
+
+/-- **prodLoc_exact**: the node starts exactly where its first item starts and ends exactly where its
+last item ends (the equalities the walk checks edge by edge). -/
+theorem prodLoc_exact (first : Loc) (rest : List Loc) (h : Ordered (first :: rest)) :
+    (prodLoc first rest).start = first.start ∧
+      (prodLoc first rest).stop = ((first :: rest).getLast (by simp)).stop := by
+  have hb := h.bounds
+  have hfirst := hb first (List.mem_cons_self ..)
+  have hlast := hb _ (List.getLast_mem (l := first :: rest) (by simp))
+  constructor
+  · apply Pos.le_antisymm (posMin_le_left _ _)
+    exact le_posMin (Pos.le_refl _) hlast.2.1
+  · apply Pos.le_antisymm
+    · exact posMax_le hfirst.2.2 (Pos.le_refl _)
+    · exact le_posMax_right _ _
+
+/-- the seeded-fault shape: `(a, b: T) -> e` with the lambda's location unioned with the parameter
+list instead of the body does not enclose the body -/
+example : ¬ (Loc.union ⟨⟨0, 0⟩, ⟨0, 11⟩⟩ ⟨⟨0, 0⟩, ⟨0, 11⟩⟩).contains ⟨⟨0, 15⟩, ⟨0, 20⟩⟩ := by decide
+example : (prodLoc ⟨⟨0, 0⟩, ⟨0, 11⟩⟩ [⟨⟨0, 15⟩, ⟨0, 20⟩⟩]).contains ⟨⟨0, 15⟩, ⟨0, 20⟩⟩ :=
+  (encloses_children _ _ (by refine ⟨by decide, by decide, ?_⟩; show Loc.wf _; decide)).2 _ (by simp)
+
 /-! ## position bookkeeping of the scanner equals the ground truth -/
 
-/-- bytes without a newline only move the column (`next_n_column`, `loc_of_advance`) -/
-theorem advanceAll_no_newline (p : Pos) (bs : Bytes) (h : ∀ b ∈ bs, b.toNat ≠ 10) :
-    advanceAll p bs = addCol p bs.length := by
-  induction bs generalizing p with
-  | nil => simp [advanceAll, addCol]
-  | cons b bs ih =>
-    have hb : b.toNat ≠ 10 := h b (List.mem_cons_self ..)
-    have := ih (advance p b) (fun x hx => h x (List.mem_cons_of_mem _ hx))
-    simp only [advanceAll, List.foldl_cons] at this ⊢
-    rw [this]
-    simp [advance, hb, addCol, Nat.add_assoc, Nat.add_comm 1]
+/-! ## position bookkeeping of the scanner equals the ground truth
 
-/-- **skip_whitespace tracks positions exactly**: after the whitespace run the tracked position is
-the ground-truth position of the bytes skipped (newlines, CR, tabs, form feeds included). -/
-theorem wsPos_exact (bs : Bytes) (p : Pos) :
-    wsPos bs p = advanceAll p (bs.take (run isAsciiWs bs)) := by
-  induction bs generalizing p with
-  | nil => simp [wsPos, run, advanceAll]
-  | cons b bs ih =>
-    simp only [wsPos, run]
-    split
-    · simp [ih, advanceAll]
-    · simp [advanceAll]
+Per-path lemmas (`Lemmas/LexerPos.lean`): `wsPos_exact`, `blockEnd_pos_exact`, `strEnd_no_newline`,
+`advanceAll_no_newline`, `lexStrLit_spec`, `lexLineComment_spec`, `lexBlockComment_spec`,
+`logosNext_spec`, `lexError_spec`, composed into `nextRaw_spec` (one step) and `rawLoop_tracked`
+(the whole run).  `TokensAt doc o ts` (defined there) says: the tokens sit at strictly increasing,
+non-overlapping byte ranges `[a, b)` of `doc`, `start = posOf (doc.take a)`, `stop = posOf (doc.take b)`,
+and an identifier's text is exactly `doc[a..b)` on one line. -/
 
-/-- **the block-comment loop tracks positions exactly**: when `blockEnd` finds the closing `*/`
-after `m - n` bytes, the position it reports is the ground-truth position after those bytes
-(multi-line comments included). -/
-theorem blockEnd_pos_exact (cs : Bytes) (p : Pos) (n m : Nat) (q : Pos)
-    (h : blockEnd cs p n = some (m, q)) : n ≤ m ∧ q = advanceAll p (cs.take (m - n)) := by
-  fun_induction blockEnd cs p n with
-  | case1 c d cs p n hq =>
-    simp only [Option.some.injEq, Prod.mk.injEq] at h
-    obtain ⟨rfl, rfl⟩ := h
-    refine ⟨by omega, ?_⟩
-    have : n + 2 - n = 2 := by omega
-    rw [this]
-    simp [advanceAll, advance, addCol, hq.1, hq.2]
-  | case2 c d cs p n _ ih =>
-    obtain ⟨hle, hq⟩ := ih h
-    refine ⟨by omega, ?_⟩
-    have : m - n = (m - (n + 1)) + 1 := by omega
-    rw [this, hq]
-    simp [advanceAll]
-  | case3 => simp at h
+/-- **pos_tracking_exact** (full strength): for every document, every token the scanner emits
+carries exactly the ground-truth positions (newline count, byte column) of the first byte of its
+range and of the byte after its range; the ranges are non-empty, inside the document, in increasing
+order and pairwise disjoint. Multi-line block comments, strings, CRLF, tabs, non-ASCII included. -/
+theorem pos_tracking_exact (doc : Bytes) : TokensAt doc 0 (rawTokens doc).toks := by
+  have := rawLoop_tracked doc (doc.length + 1) 0 (by omega)
+  simpa [rawTokens, posOf, advanceAll] using this
 
-/-- a string literal never spans a line: the bytes `strEnd` accepts contain no newline, so the
-column-only update `position.1 += pos + 1` (lexer.rs:344) is exact -/
-theorem strEnd_no_newline (cs : Bytes) (esc pos n : Nat) (h : strEnd cs esc pos = some n) :
-    ∀ b ∈ cs.take (n - pos), b.toNat ≠ 10 := by
-  fun_induction strEnd cs esc pos with
-  | case1 => simp at h
-  | case2 c cs esc pos hq =>
-    simp only [Option.some.injEq] at h
-    subst h
-    have : pos + 1 - pos = 1 := by omega
-    rw [this]
-    intro b hb
-    simp at hb
-    subst hb
-    omega
-  | case3 => simp at h
-  | case4 c cs esc pos hq hn ih =>
-    have hgt := strEnd_gt _ _ _ _ h
-    have : n - pos = (n - (pos + 1)) + 1 := by omega
-    rw [this]
-    intro b hb
-    simp only [List.take_succ_cons, List.mem_cons] at hb
-    rcases hb with rfl | hb
-    · exact hn
-    · exact ih h b hb
+theorem TokensAt.ordered {doc : Bytes} {o : Nat} {ts : List Token} (h : TokensAt doc o ts) :
+    Ordered (ts.map fun t => (⟨t.start, t.stop⟩ : Loc)) ∧
+      ∀ t ∈ ts.head?, posOf (doc.take o) ≤ t.start := by
+  induction ts generalizing o with
+  | nil => simp [Ordered]
+  | cons t ts ih =>
+    obtain ⟨a, b, hoa, hab, hb, hs, he, _, hrest⟩ := h
+    have hwf : t.start ≤ t.stop := by rw [hs, he]; exact posOf_mono doc a b (by omega)
+    have hh : ∀ t' ∈ (t :: ts).head?, posOf (doc.take o) ≤ t'.start := by
+      intro t' ht'
+      simp only [List.head?_cons, Option.mem_def, Option.some.injEq] at ht'
+      subst ht'
+      rw [hs]; exact posOf_mono doc o a hoa
+    refine ⟨?_, hh⟩
+    have ih' := ih hrest
+    cases ts with
+    | nil => exact hwf
+    | cons u us =>
+      refine ⟨hwf, ?_, ih'.1⟩
+      have := ih'.2 u (by simp)
+      show t.stop ≤ u.start
+      rw [he]; exact this
 
+/-- **tokens_ordered** (full strength): for every document every token has `start ≤ end` and
+consecutive tokens satisfy `endᵢ ≤ startᵢ₊₁` in the `Position` order the tools use. -/
+theorem tokens_ordered (doc : Bytes) :
+    Ordered ((rawTokens doc).toks.map fun t => (⟨t.start, t.stop⟩ : Loc)) :=
+  (pos_tracking_exact doc).ordered.1
+
+theorem TokensAt.names {doc : Bytes} {o : Nat} {ts : List Token} (h : TokensAt doc o ts) :
+    ∀ t ∈ ts, (t.kind = .upper ∨ t.kind = .lower) →
+      ∃ a b, a < b ∧ b ≤ doc.length ∧ t.start = posOf (doc.take a) ∧
+        t.text = (doc.drop a).take (b - a) ∧ t.stop = addCol t.start t.text.length := by
+  induction ts generalizing o with
+  | nil => simp
+  | cons u us ih =>
+    obtain ⟨a, b, _, hab, hb, hs, _, hid, hrest⟩ := h
+    intro t ht hk
+    rcases List.mem_cons.mp ht with rfl | ht
+    · exact ⟨a, b, hab, hb, hs, (hid hk).1, (hid hk).2⟩
+    · exact ih hrest t ht hk
+
+/-- **name_span_exact** (full strength): an identifier token covers exactly the bytes that spell its
+name: its text is the document slice at its start offset, and its span stays on one line with
+column length = name length (in bytes). -/
+theorem name_span_exact (doc : Bytes) (t : Token) (ht : t ∈ (rawTokens doc).toks)
+    (hk : t.kind = .upper ∨ t.kind = .lower) :
+    ∃ a b, a < b ∧ b ≤ doc.length ∧ t.start = posOf (doc.take a) ∧
+      t.text = (doc.drop a).take (b - a) ∧ t.stop = addCol t.start t.text.length :=
+  (pos_tracking_exact doc).names t ht hk
+
+/-- the `-` / `2147483648` merge of `TokenProducer` (`prev_loc.union(&loc)`) keeps exactness: for
+ordered operands the union starts at the minus sign and ends at the literal's end -/
+theorem merge_span_exact (p t : Loc) (hp : p.wf) (ht : t.wf) (h : p.stop ≤ t.start) :
+    posMin p.start t.start = p.start ∧ posMax p.stop t.stop = t.stop := by
+  have := prodLoc_exact p [t] (show Ordered [p, t] from ⟨hp, h, ht⟩)
+  simpa [prodLoc, Loc.union] using this
+
+example : (rawTokens [97, 10, 32, 98, 99]).toks.map (fun t => (t.start, t.stop)) =
+    [(⟨0, 0⟩, ⟨0, 1⟩), (⟨1, 1⟩, ⟨1, 3⟩)] := by decide
 example : posOf [97, 10, 98] = ⟨1, 1⟩ := by decide
 
 end SamVerif.Lexer
